@@ -265,12 +265,12 @@ pub fn count_fds() -> usize {
 // ---------------------------------------------------------------------------------------------
 //
 // One `rx-pt-XXXXXX/` directory is created under std::env::temp_dir() per run and removed at the
-// end. Every scenario gets `rx-pt-XXXXXX/s<N>/{export,outside}` with FRESH content: all files,
-// symlinks, fifos and all directories that are not part of the scenario's layout are removed and
-// the layout is re-created from the node list before the file system is built. Directory inodes
-// of the layout itself are reused by later scenarios with the same layout, because on the ext4 of
-// the sandbox every rmdir costs ~6 ms (a fresh mkdtemp + remove_dir_all per scenario would cost
-// about a minute for the group); the PassthroughFs instance is always new.
+// end. Every scenario gets `rx-pt-XXXXXX/s<N>/{export,outside}` reset to exactly its layout before
+// the file system is built: everything that is not verifiably (kind, bytes, mode, owner, link
+// count, link target) part of the node list is removed and re-created. Directories of the layout
+// and untouched objects are reused by later scenarios with the same directory skeleton, because
+// on the ext4 of the sandbox a rmdir costs ~6 ms and every create/unlink ~0.1 ms (a fresh mkdtemp
+// + remove_dir_all per scenario would cost minutes for the group). The PassthroughFs is always new.
 
 struct Pool {
     base: TempDir,
@@ -310,7 +310,25 @@ fn pool_close() {
     drop(pool); // TempDir::drop removes the rest
 }
 
-fn wipe(top: &Path, rel: &str, keep: &BTreeSet<String>, trash: &mut Vec<PathBuf>, trash_dir: &Path) -> io::Result<()> {
+/// does the object at `p` already equal the node (kind, content, mode, link count)?
+fn node_intact(top: &Path, n: &Node, nodes: &[Node]) -> bool {
+    let (p, want_links) = match n {
+        Node::File(p, _) => (p, 1 + nodes.iter().filter(|h| matches!(h, Node::Hard(_, e) if e == p)).count() as u64),
+        Node::Sym(p, _) | Node::Fifo(p) | Node::Hard(p, _) => (p, 0),
+        Node::Dir(_) => return true,
+    };
+    let Ok(m) = fs::symlink_metadata(top.join(p)) else { return false };
+    match n {
+        Node::File(_, d) => m.file_type().is_file() && m.len() == d.len() as u64 && m.mode() & 0o7777 == 0o644 && m.nlink() == want_links && m.uid() == 0 && fs::read(top.join(p)).map_or(false, |c| &c == d),
+        Node::Sym(_, t) => m.file_type().is_symlink() && m.uid() == 0 && fs::read_link(top.join(p)).map_or(false, |x| x.to_string_lossy() == t.as_str()),
+        Node::Fifo(_) => m.file_type().is_fifo() && m.mode() & 0o7777 == 0o644 && m.nlink() == 1,
+        Node::Hard(_, e) => fs::symlink_metadata(top.join(e)).map_or(false, |me| me.ino() == m.ino() && me.dev() == m.dev()),
+        Node::Dir(_) => true,
+    }
+}
+
+/// remove everything under `rel` that is not an intact part of the layout
+fn wipe(top: &Path, rel: &str, keep_dirs: &BTreeSet<String>, keep_files: &BTreeSet<String>, trash: &mut Vec<PathBuf>, trash_dir: &Path) -> io::Result<()> {
     let p = if rel.is_empty() { top.to_path_buf() } else { top.join(rel) };
     for e in fs::read_dir(&p)? {
         let e = e?;
@@ -318,15 +336,17 @@ fn wipe(top: &Path, rel: &str, keep: &BTreeSet<String>, trash: &mut Vec<PathBuf>
         let r = if rel.is_empty() { name.clone() } else { format!("{}/{}", rel, name) };
         let ft = e.file_type()?;
         if ft.is_dir() {
-            let _ = fs::set_permissions(e.path(), fs::Permissions::from_mode(0o755));
-            if keep.contains(&r) {
-                wipe(top, &r, keep, trash, trash_dir)?;
+            if e.metadata().map_or(true, |m| m.mode() & 0o7777 != 0o755) {
+                let _ = fs::set_permissions(e.path(), fs::Permissions::from_mode(0o755));
+            }
+            if keep_dirs.contains(&r) {
+                wipe(top, &r, keep_dirs, keep_files, trash, trash_dir)?;
             } else {
                 let dst = trash_dir.join(format!("t{}", trash.len()));
                 fs::rename(e.path(), &dst)?;
                 trash.push(dst);
             }
-        } else {
+        } else if !keep_files.contains(&r) {
             fs::remove_file(e.path())?;
         }
     }
@@ -355,17 +375,46 @@ fn acquire_slot(nodes: &[Node], lane: usize) -> Result<PathBuf, String> {
             p
         }
     };
+    // objects that are verifiably what the layout says (kind, bytes, mode, owner, link count) stay;
+    // a file with hard links stays only together with all of them
+    let mut intact: BTreeSet<String> = BTreeSet::new();
+    for n in nodes {
+        let ok = node_intact(&top, n, nodes);
+        match n {
+            Node::File(p, _) | Node::Sym(p, _) | Node::Fifo(p) | Node::Hard(p, _) if ok => {
+                intact.insert(p.clone());
+            }
+            _ => {}
+        }
+    }
+    for n in nodes {
+        if let Node::Hard(p, e) = n {
+            if !intact.contains(p) || !intact.contains(e) {
+                intact.remove(p);
+                intact.remove(e);
+            }
+        }
+    }
+    for n in nodes {
+        if let Node::Hard(p, e) = n {
+            if !intact.contains(e) {
+                intact.remove(p);
+            }
+        }
+    }
     let trash_dir = pool.base.as_path().join("trash");
-    wipe(&top, "", &keep, &mut pool.trash, &trash_dir).map_err(|e| format!("cannot reset {}: {}", top.display(), e))?;
+    wipe(&top, "", &keep, &intact, &mut pool.trash, &trash_dir).map_err(|e| format!("cannot reset {}: {}", top.display(), e))?;
     if !top.join("export").is_dir() {
         fs::create_dir(top.join("export")).map_err(|e| format!("mkdir export: {}", e))?;
     }
-    let _ = fs::set_permissions(top.join("export"), fs::Permissions::from_mode(0o755));
-    // directories of the layout that survived are kept (same inode), the rest is created
+    if fs::metadata(top.join("export")).map_or(true, |m| m.mode() & 0o7777 != 0o755) {
+        let _ = fs::set_permissions(top.join("export"), fs::Permissions::from_mode(0o755));
+    }
     let mut todo: Vec<Node> = Vec::new();
     for n in nodes {
         match n {
             Node::Dir(p) if top.join(p).is_dir() => {}
+            Node::File(p, _) | Node::Sym(p, _) | Node::Fifo(p) | Node::Hard(p, _) if intact.contains(p) => {}
             other => todo.push(other.clone()),
         }
     }
@@ -425,6 +474,12 @@ pub struct World {
     pub eff_no_opendir: bool,
     /// entries readdirplus offered but the client refused: (name, inode number)
     pub refused: Vec<(Vec<u8>, u64)>,
+    /// the client's readdir callback fails (EIO) at the n-th entry offered within one request
+    pub cb_error_at: Option<usize>,
+    /// a handle's descriptor was found closed behind the library's back: releasing the handle or
+    /// dropping the file system would close it a second time, which aborts a process built with
+    /// debug assertions ("IO Safety violation"). The scenario then skips the release and leaks the World.
+    pub poisoned: bool,
 }
 
 fn cstr(name: &str) -> CString {
@@ -490,14 +545,7 @@ impl World {
                 return Err(format!("init did not negotiate the requested no_open/no_opendir ({:?})", got));
             }
         }
-        let mut watch = Vec::new();
-        for n in nodes {
-            if let Node::File(p, _) = n {
-                if p.starts_with("export/") {
-                    watch.push(top.join(p));
-                }
-            }
-        }
+        let watch = Vec::new();
         let mut w = World {
             fs: pfs,
             top,
@@ -519,9 +567,17 @@ impl World {
             eff_no_open,
             eff_no_opendir,
             refused: Vec::new(),
+            cb_error_at: None,
+            poisoned: false,
         };
         w.watch0 = w.sizes();
         Ok(w)
+    }
+
+    /// record the sizes of these files (relative to export/) after every request
+    pub fn watch_files(&mut self, names: &[&str]) {
+        self.watch = names.iter().map(|n| self.root.join(n)).collect();
+        self.watch0 = self.sizes();
     }
 
     pub fn sizes(&self) -> Vec<u64> {
@@ -707,8 +763,14 @@ impl World {
         let mut refused: Vec<(Vec<u8>, u64)> = Vec::new();
         let mut entries: Vec<Entry> = Vec::new();
         let mut used = 0usize;
+        let mut offered = 0usize;
+        let err_at = self.cb_error_at;
         let res = if !plus {
             self.fs.readdir(&self.ctx, ino, h, size, off, &mut |de: DirEntry| {
+                offered += 1;
+                if err_at == Some(offered - 1) {
+                    return Err(io::Error::from_raw_os_error(libc::EIO));
+                }
                 let wire = 24 + pad8(de.name.len());
                 if out.len() < k && used + wire <= size as usize {
                     used += wire;
@@ -720,6 +782,11 @@ impl World {
             })
         } else {
             self.fs.readdirplus(&self.ctx, ino, h, size, off, &mut |de: DirEntry, e: Entry| {
+                offered += 1;
+                if err_at == Some(offered - 1) {
+                    refused.push((de.name.to_vec(), e.inode));
+                    return Err(io::Error::from_raw_os_error(libc::EIO));
+                }
                 let wire = 128 + 24 + pad8(de.name.len());
                 if out.len() < k && used + wire <= size as usize {
                     used += wire;
@@ -742,7 +809,8 @@ impl World {
             self.refused.push((n, i));
         }
         let op = if plus { "readdirplus" } else { "readdir" };
-        self.push(op, format!("{}(inode={}, handle={}, size={}, offset={}; client accepts <= {} entries)", op, ino, h, size, off, if k == usize::MAX { "all".to_string() } else { k.to_string() }), &r, |v| {
+        let cbe = err_at.map(|n| format!(", its callback fails with EIO at entry #{}", n)).unwrap_or_default();
+        self.push(op, format!("{}(inode={}, handle={}, size={}, offset={}; client accepts <= {} entries{})", op, ino, h, size, off, if k == usize::MAX { "all".to_string() } else { k.to_string() }, cbe), &r, |v| {
             (v.len() as i64, format!("{} entries: {}", v.len(), v.iter().map(|d| format!("{}@{}", short_name(&String::from_utf8_lossy(&d.name)), d.off)).collect::<Vec<_>>().join(" ")))
         });
         r
